@@ -12,6 +12,9 @@ RULE = ('operation sequences of length 4 (quick: every fourth one of the complet
         'random sequences of length 40-200 (hosts/services, max 1..4, volatile, flapping on/off, active checks on/off, several check intervals) '
         'with long downtimes, (sticky/expiring) acknowledgements, parent down periods, pause/resume, flexible and chained downtimes, '
         'biased so that most steps happen under a suppression reason (fraction measured in extra.steps_under_reason_fraction); '
+        'a family with flapping enabled in which the detector (simulated exactly by the generator) is driven to toggle by alternating results before / while / after a long downtime begins, '
+        'FlappingStart/FlappingEnd are withheld, and the first hard changes of an episode follow inside the same suppression from hard problem, hard OK and hard OK with a stale non-OK remembered state, then release '
+        '(extra.episodes_begun_while_flapping_bit_pending counts episodes whose first state notification is stashed while a flapping bit is pending); '
         'non-trivial = at least one state notification was requested or withheld in the case; distinct = distinct script text')
 TRUSTED = ['model: coq/Ck/CkFull.v (transcription of Checkable::ProcessCheckResult, FireSuppressedNotifications, NotificationReasonSuppressed/Applies, '
            'IsLikelyToBeCheckedSoon, acknowledgement and downtime entry points; flapping in exact 1/100 % arithmetic); C02 proofs in coq/Ck/CkSupp*.v',
@@ -162,6 +165,117 @@ def random_case(rnd, n, fam, **cfg):
     return g.case(fam)
 
 
+
+class FlapSim:
+    """Checkable::UpdateFlappingStatus in exact arithmetic (as coq/Ck/CkFull.v: update_flap), thresholds 30.05 / 25.05."""
+
+    def __init__(self):
+        self.buf = [False] * 20
+        self.index = 0
+        self.last = 3
+        self.flapping = False
+
+    def feed(self, state):
+        self.buf[self.index] = (state != self.last)
+        oldest = (self.index + 1) % 20
+        v = sum(400 + 10 * i for i in range(20) if self.buf[(oldest + i) % 20])
+        self.flapping = v > (2505 if self.flapping else 3005)
+        self.index = oldest
+        self.last = state
+        return self.flapping
+
+
+def flap_case(rnd, kind, start, where):
+    """Flapping toggles around / inside a suppression, then the FIRST hard change of an episode is withheld while a
+    flapping bit may already be pending, then release.  `where`: when the long downtime begins relative to the flapping."""
+    mx = rnd.choice((1, 1, 1, 2))
+    lines = ['now %d' % T0, 'ckf_new kind=%s max=%d vol=0 flap=1 active=0 ci=300' % (kind, mx)]
+    t = [T0]
+    sim = FlapSim()
+    ndt = [0]
+    bad = 2 if kind == 'host' else rnd.choice((1, 2, 2, 3))
+
+    def res(s):
+        t[0] += rnd.choice((5, 10, 10, 30))
+        lines.append('now %d' % t[0])
+        lines.append('crf state=%d' % s)
+        return sim.feed(s)
+
+    def op(l):
+        t[0] += rnd.choice((1, 5))
+        lines.append('now %d' % t[0])
+        lines.append(l)
+
+    def dt():
+        ndt[0] += 1
+        op('dt_add id=%d fixed=1 start=%d end=%d dur=0 trig=0 parent=0 owned=0' % (ndt[0], t[0] + 1, t[0] + 100000))
+
+    def undt():
+        op('dt_remove id=%d children=0 reason=user' % ndt[0])
+
+    res(0)
+    if start in ('crit', 'ok-stale'):
+        for _ in range(mx):
+            res(bad)
+    if start == 'ok-stale':
+        # an earlier episode that leaves a non-OK remembered state behind: CRITICAL -> [downtime: OK] -> released Recovery
+        dt(); res(0); undt()
+        t[0] += 400
+        op('fire')
+    base = bad if start == 'crit' else 0
+    other = 0 if base else bad
+    if where == 'before':
+        dt()
+    # phase A: alternate until the detector says flapping
+    n = 0
+    cur = base
+    while not sim.flapping and n < 24:
+        cur = other if cur == base else base
+        res(cur)
+        n += 1
+        if where == 'during' and n == 4:
+            dt()
+    for _ in range(rnd.choice((0, 0, 1, 2))):
+        cur = other if cur == base else base
+        res(cur)
+    if where == 'after':
+        dt()
+    if where == 'none' and rnd.random() < 0.5:
+        op('ack via=api sticky=1 notify=0 pers=0 eg=0 expiry=0')
+    if rnd.random() < 0.25:
+        op('parent up=0')
+    if rnd.random() < 0.2:
+        op('fire')
+    # phase B: steady results until the detector says not flapping any more (FlappingEnd: withheld inside the downtime)
+    n = 0
+    steady = base if rnd.random() < 0.8 else cur
+    while (sim.flapping or n < 1) and n < 40:
+        res(steady)
+        n += 1
+    for _ in range(rnd.choice((0, 0, 1))):
+        res(steady)
+    # phase C: the first hard changes of the episode, still inside the suppression
+    cur = steady
+    for _ in range(rnd.choice((1, 1, 2, 3))):
+        nxt = rnd.choice([x for x in ((0, bad) if kind == 'host' else (0, 1, 2, 3)) if x != cur])
+        for _ in range(mx if nxt != 0 else 1):
+            res(nxt)
+        cur = nxt
+        if rnd.random() < 0.15:
+            op('fire')
+    # phase D: release
+    if 'parent up=0' in lines:
+        op('parent up=1')
+        res(cur)
+    if ndt[0]:
+        undt()
+    t[0] += 400
+    lines.append('now %d' % t[0])
+    lines.append('fire')
+    lines.append('fire')
+    return {'lines': lines, 'tags': {'family': 'flapping-inside-suppression'}}
+
+
 def generate(seed, tier):
     rnd = random.Random(seed)
     cases = []
@@ -194,6 +308,10 @@ def generate(seed, tier):
         cases.append(random_case(rnd, rnd.randint(40, 120), 'random-long-volatile', vol=1, mx=rnd.choice((1, 2, 3, 4))))
     for i in range(nrand // 5):
         cases.append(random_case(rnd, rnd.randint(60, 200), 'random-long-flapping', flap=1, vol=0))
+    nflap = {'quick': 600, 'thorough': 6000, 'search': 1200}.get(tier, 600)
+    for i in range(nflap):
+        cases.append(flap_case(rnd, ('host', 'svc')[i % 2], ('crit', 'ok', 'ok-stale')[(i // 2) % 3],
+                               ('after', 'after', 'before', 'during', 'none')[(i // 6) % 5]))
     return cases
 
 
@@ -257,6 +375,7 @@ def _in_effect(now, p, trig):
 def extra_stats(cases, impl):
     steps = under = 0
     sent_p = sent_r = stashed = released = dismissed = flap_n = paused_steps = 0
+    flap_withheld = stash_with_flap_pending = cases_stash_with_flap_pending = 0
     by = {'downtime': 0, 'ack': 0, 'unreachable': 0, 'pending': 0}
     for c in cases:
         il = impl.get(c['id'], [])
@@ -265,6 +384,7 @@ def extra_stats(cases, impl):
         dts = {}
         pdown = False
         prev_supp = 0
+        hit = False
         for l in c['lines']:
             w = l.split()
             if w[0] == 'now':
@@ -302,10 +422,19 @@ def extra_stats(cases, impl):
             sent_p += nrs.count(32); sent_r += nrs.count(64); flap_n += nrs.count(128) + nrs.count(256)
             if (supp & 96) and not (prev_supp & 96):
                 stashed += 1
+                if prev_supp & 384:
+                    stash_with_flap_pending += 1
+                    hit = True
+            if (supp & 384) & ~(prev_supp & 384):
+                flap_withheld += 1
             if w[0] == 'fire' and (prev_supp & 96) and not (supp & 96):
                 if 32 in nrs or 64 in nrs: released += 1
                 else: dismissed += 1
             prev_supp = supp
-    return {'steps': steps, 'steps_under_reason': under, 'steps_under_reason_fraction': round(under / max(1, steps), 3),
+        if hit:
+            cases_stash_with_flap_pending += 1
+    return {'flapping_toggles_withheld': flap_withheld, 'episodes_begun_while_flapping_bit_pending': stash_with_flap_pending,
+            'cases_with_episode_begun_while_flapping_bit_pending': cases_stash_with_flap_pending,
+            'steps': steps, 'steps_under_reason': under, 'steps_under_reason_fraction': round(under / max(1, steps), 3),
             'steps_by_reason': by, 'problem_requests': sent_p, 'recovery_requests': sent_r, 'suppression_episodes': stashed,
             'released_with_notification': released, 'released_without_notification': dismissed, 'flapping_requests': flap_n}
